@@ -33,7 +33,7 @@ COMPONENTS = {"real": ["pel.peltool.peltool.main() in-process"],
 ASSUMPTIONS = ["file names follow the BMC convention <bcd time>_<EID> and no name contains the 8-digit id of another file",
                "--src-exclude is issued together with -E and only on stores where every PEL has a primary SRC (the code applies the default class filter to it; whether the property's last sentence covers it is arguable, so exactness is tested without taking a side)",
                "a PEL without primary SRC has no reference code and is expected in no --src result"]
-PROBES = ["lookup:plid", "lookup:bmc", "lookup:id", "lookup:src", "lookup:srcx", "id_small", "id_mid", "id_max", "hidden_hit",
+PROBES = ["symlinked_pel", "lookup:plid", "lookup:bmc", "lookup:id", "lookup:src", "lookup:srcx", "id_small", "id_mid", "id_max", "hidden_hit",
           "nonserviceable_hit", "json_sibling_listed_first", "near_miss", "after_delete", "after_json", "shared_plid_hit", "hex"]
 
 
@@ -51,7 +51,8 @@ def gen_plan(rng, tier, run):
     magc = rng.choice([None, None, "small", "mid", "typical", "max"])
     files = common.gen_store(rng, n, style="bmc", refpool=common.REFCODE_POOL if rng.random() < 0.8 else None,
                              with_src=True if all_src else None, max_sections=3, id_magnitude=magc, dup_plid=0.35,
-                             ud_targets=[("O", 0x2000)] if rng.random() < 0.5 else None)
+                             ud_targets=[("O", 0x2000)] if rng.random() < 0.5 else None,
+                             links=rng.choice([0, 0, 0.3]))
     extra = common.gen_store(rng, 4, style="bmc", refpool=common.REFCODE_POOL, with_src=True if all_src else None,
                              max_sections=2, id_magnitude=magc, dup_plid=0)
     used = {f["recipe"]["eid"] for f in files}
@@ -87,6 +88,13 @@ def gen_plan(rng, tier, run):
                     v ^= 1 << (4 * rng.randrange(8) + rng.randrange(4))
                 elif how == "absent":
                     v = pelgen.gen_id(rng)
+                if kind == "id" and how != "hit":
+                    # -i matches on file names: an id that is not stored must not occur in any name by accident
+                    # (e.g. inside a timestamp)
+                    for _ in range(20):
+                        if not any(("%08X" % v) in f["name"] for f in allf):
+                            break
+                        v = pelgen.gen_id(rng, "typical")
                 op["arg"] = spell(rng, v)
             elif kind == "bmc":
                 v = tgt["bmc_id"]
@@ -185,11 +193,13 @@ def execute(plan):
         w.put("X/exclude.txt", "\n".join(plan["exclude"]).encode())
         for f in plan["files"]:
             datas[f["name"]] = common.file_data(f)
+            if f.get("link"):
+                bump("symlinked_pel")
         for op in plan["ops"]:
             k = op["op"]
             if k == "add":
                 datas[op["file"]["name"]] = common.file_data(op["file"])
-                w.put(dname + "/" + op["file"]["name"], datas[op["file"]["name"]])
+                common.put_store(w, dname, [dict(op["file"], data=datas[op["file"]["name"]])])
                 mutated = True
                 trace.append("add")
                 continue
